@@ -537,6 +537,13 @@ pub fn moved_point_pass_log2<S: Lin>(
     Some(total)
 }
 
+pub fn transcript_collision_log2<S: Lin>(keys: &Keys<S>, first: &LabeledCommitment<Comm<S>>) -> Option<f64> {
+    let mc = comm_mirror::<S>(first).ok()?;
+    let n = mc.metadata.n_ext_cols;
+    let t = expected_t::<Fr>(S::sec_param(&keys.ck), S::distance(&keys.ck), n)?;
+    Some(-(t as f64) * (n as f64).log2())
+}
+
 pub fn comm_mirror<S: Scheme>(c: &LabeledCommitment<Comm<S>>) -> Result<MComm, String> {
     mirror::<Comm<S>, MComm>(c.commitment())
 }
